@@ -35,8 +35,36 @@ var (
 	SigLzAnd  = ref.FunSig{Name: "lz_and", Params: []*m.Type{m.Bool, m.Bool}, Ret: m.Bool, Impl: "lz_and", Lazy: true}
 	SigLzPick = ref.FunSig{Name: "lz_pick", Params: []*m.Type{m.Num, A_, A_}, Ret: A_, Impl: "lz_pick", Lazy: true}
 
-	StdHarness = []ref.FunSig{SigTr, SigBoom, SigHsub, SigHpair, SigLzIf, SigLzAnd, SigLzPick}
+	// wider lazy / strict functions (a back end may special-case the arities of if / && / ||)
+	SigLzSel4 = ref.FunSig{Name: "lz_sel4", Params: []*m.Type{m.Num, A_, A_, A_}, Ret: A_, Impl: "lz_sel4", Lazy: true}
+	SigLzSel6 = ref.FunSig{Name: "lz_sel6", Params: []*m.Type{m.Num, A_, A_, A_, A_, A_}, Ret: A_, Impl: "lz_sel6", Lazy: true}
+	SigLzOne  = ref.FunSig{Name: "lz_one", Params: []*m.Type{A_}, Ret: A_, Impl: "lz_one", Lazy: true}
+	SigLzNone = ref.FunSig{Name: "lz_none", Params: []*m.Type{A_, m.Num}, Ret: m.Num, Impl: "lz_none", Lazy: true}
+	SigH4     = ref.FunSig{Name: "h4", Params: []*m.Type{m.Num, A_, m.Num, A_}, Ret: A_, Impl: "h4"}
+
+	StdHarness = []ref.FunSig{SigTr, SigBoom, SigHsub, SigHpair, SigLzIf, SigLzAnd, SigLzPick, SigLzSel4, SigLzSel6, SigLzOne, SigLzNone, SigH4}
 )
+
+// IsHarnessName: the name of a harness-registered function.
+func IsHarnessName(n string) bool {
+	if n == "ov" {
+		return true
+	}
+	for _, f := range StdHarness {
+		if f.Name == n {
+			return true
+		}
+	}
+	return false
+}
+
+// selIndex: which of n operands a lz_sel function forces for selector x.
+func selIndex(x float64, n int) int {
+	if x == x && x >= 0 && x < 1e9 {
+		return int(x) % n
+	}
+	return 0
+}
 
 const BoomMarker = "BOOM(harness)"
 
@@ -136,6 +164,27 @@ func MakeHarnessFun(f ref.FunSig, tr *Tracer) *val.Val {
 				return force(args[1])
 			}
 		}
+	case "lz_sel4", "lz_sel6":
+		n := len(f.Params) - 1
+		impl = func(args ...*val.Val) *val.Val {
+			tr.Add(base)
+			return force(args[1+selIndex(force(args[0]).Num().V, n)])
+		}
+	case "lz_one":
+		impl = func(args ...*val.Val) *val.Val {
+			tr.Add("lz_one")
+			return force(args[0])
+		}
+	case "lz_none":
+		impl = func(args ...*val.Val) *val.Val {
+			tr.Add("lz_none")
+			return force(args[1])
+		}
+	case "h4":
+		impl = func(args ...*val.Val) *val.Val {
+			tr.Add(traceLine("h4", []string{renderYae(args[0]), renderYae(args[1]), renderYae(args[2]), renderYae(args[3])}))
+			return args[1]
+		}
 	case "ov":
 		marker := f.Impl
 		impl = func(args ...*val.Val) *val.Val {
@@ -233,6 +282,29 @@ func RefHarness(sigs []ref.FunSig) map[string]ref.HarnessFun {
 			return last, nil
 		}},
 	}
+	for _, name := range []string{"lz_sel4", "lz_sel6"} {
+		name := name
+		h[name] = ref.HarnessFun{Lazy: func(ev *ref.Evaluator, ret *m.Type, a []ref.Thunk) (*m.Val, *ref.Failure) {
+			ev.Trace = append(ev.Trace, name)
+			k, f := a[0]()
+			if f != nil {
+				return nil, f
+			}
+			return a[1+selIndex(float64(k.N), len(a)-1)]()
+		}}
+	}
+	h["lz_one"] = ref.HarnessFun{Lazy: func(ev *ref.Evaluator, ret *m.Type, a []ref.Thunk) (*m.Val, *ref.Failure) {
+		ev.Trace = append(ev.Trace, "lz_one")
+		return a[0]()
+	}}
+	h["lz_none"] = ref.HarnessFun{Lazy: func(ev *ref.Evaluator, ret *m.Type, a []ref.Thunk) (*m.Val, *ref.Failure) {
+		ev.Trace = append(ev.Trace, "lz_none")
+		return a[1]()
+	}}
+	h["h4"] = ref.HarnessFun{Strict: func(ev *ref.Evaluator, ret *m.Type, a []*m.Val) (*m.Val, *ref.Failure) {
+		refTrace(ev, "h4", a)
+		return a[1], nil
+	}}
 	for _, s := range sigs {
 		if strings.HasPrefix(s.Impl, "ov#") {
 			marker := s.Impl
